@@ -245,6 +245,11 @@ func mergeValues(opts *options, old, v value) (value, Error) {
 	if err != nil {
 		return v, nil
 	}
+	if _, own := old.(cfgSub); !own {
+		// old is a reference (or another lazily evaluated value): what it resolved
+		// to belongs to the setting it points at. Merge into a copy of it.
+		subOld = cfgSub{subOld}.cpy(old.Context()).(cfgSub).c
+	}
 
 	// merge new and old evaluated sub-configurations and return subOld for
 	// reassigning to old key in case of subOld being generated dynamically
